@@ -226,6 +226,9 @@ DOC_ATTRS = ("author", "version", "date", "repository")
 
 
 def _s(v):
+    import enum
+    if isinstance(v, enum.Enum):
+        v = v.value                 # a dtype given as DType member is the dtype of that name
     return "none" if v is None else repr(v)
 
 
